@@ -59,7 +59,7 @@ func ruleFlaggedWindowInvariant(w *World, r *Report) {
 					}
 					n++
 					key := fmt.Sprintf("%s: %s[%s:%s-%d] under %s", w.FnKey(fn), stableName(sl.X), mark.Comment, idx.Comment, c, flag.Comment)
-					bad, nCycles, nFlagged := w.checkFlagInvariant(l, sl.X, idx, mark, flag, c)
+					bad, nCycles, nFlagged := w.checkFlagInvariant(l, sl.X, idx, mark, flag, c, false)
 					_ = phis
 					if bad != "" {
 						r.Bad(key, w.InstrPos(sl), bad)
@@ -73,7 +73,7 @@ func ruleFlaggedWindowInvariant(w *World, r *Report) {
 	r.Expect("flag-guarded short cuts of a pending range", n, 1)
 }
 
-func (w *World) checkFlagInvariant(l *natLoop, base ssa.Value, idx, mark, flag *ssa.Phi, c int64) (string, int, int) {
+func (w *World) checkFlagInvariant(l *natLoop, base ssa.Value, idx, mark, flag *ssa.Phi, c int64, skipMode bool) (string, int, int) {
 	env := &byteEnv{w: w, base: base, idx: idx}
 	nCycles, nFlagged := 0, 0
 	bad := ""
@@ -118,6 +118,27 @@ func (w *World) checkFlagInvariant(l *natLoop, base ssa.Value, idx, mark, flag *
 						}
 					}
 					return nil
+				}
+				if skipMode {
+					// a cycle that leaves the pending range alone moves on by exactly one byte
+					no, io := edgeVal(mark), edgeVal(idx)
+					if no != ssa.Value(mark) {
+						continue
+					}
+					nFlagged++
+					ix, d := splitOffset(io)
+					ix = resolveAlong(ix, full[:len(full)-1])
+					if x2, d2 := splitOffset(ix); x2 != ix {
+						ix, d = resolveAlong(x2, full[:len(full)-1]), d+d2
+					}
+					if x3, d3 := splitOffset(ix); x3 != ix {
+						ix, d = resolveAlong(x3, full[:len(full)-1]), d+d3
+					}
+					if ix == ssa.Value(idx) && d == 1 {
+						continue
+					}
+					bad = fmt.Sprintf("a cycle ending at %s writes nothing and keeps the pending range, yet moves the index to %s instead of one byte on: the bytes in between are neither pending nor written", w.blockPos(b), exprOfOffset(io))
+					return
 				}
 				fo := edgeVal(flag)
 				escOut := false
@@ -173,4 +194,62 @@ func (w *World) checkFlagInvariant(l *natLoop, base ssa.Value, idx, mark, flag *
 		return "more than 4096 cycles", nCycles, nFlagged
 	}
 	return bad, nCycles, nFlagged
+}
+
+// ruleNoByteSkipped (C02-S): the same loops, another obligation of every cycle.
+func ruleNoByteSkipped(w *World, r *Report) {
+	r.Rule("C02-S", "In the scanners that keep a pending range [n, i) and a backslash flag (the resolving writer), every feasible cycle of the loop that leaves n unchanged — nothing was written, the byte joins the pending range — ends with the index exactly one byte further (resolved along the cycle: an index set to the end of a failed look-ahead must be rewound). Otherwise the byte after an unterminated '&#123' is swallowed by the look-ahead: its backslash escape or character reference is written undecoded.")
+	n := 0
+	for _, fn := range w.Funcs {
+		if fn.Synthetic != "" {
+			continue
+		}
+		loops, _ := naturalLoops(fn)
+		for _, l := range loops {
+			if isRangeLoop(l) {
+				continue
+			}
+			done := false
+			for b := range l.body {
+				for _, ins := range b.Instrs {
+					sl, ok := ins.(*ssa.Slice)
+					if !ok || done || sl.Low == nil || sl.High == nil || !isByteSlice(sl.X.Type()) {
+						continue
+					}
+					mark, ok := sl.Low.(*ssa.Phi)
+					if !ok || mark.Block() != l.header {
+						continue
+					}
+					hb, ok := stripConv(sl.High).(*ssa.BinOp)
+					if !ok || hb.Op != token.SUB {
+						continue
+					}
+					idx, ok := hb.X.(*ssa.Phi)
+					c, okc := constInt(hb.Y)
+					if !ok || !okc || idx.Block() != l.header || c < 1 {
+						continue
+					}
+					var flag *ssa.Phi
+					for _, cf := range dominatingConds(b) {
+						if p, ok := cf.If.Cond.(*ssa.Phi); ok && cf.Truth && p.Block() == l.header && isBool(p.Type()) {
+							flag = p
+						}
+					}
+					if flag == nil {
+						continue
+					}
+					done = true
+					n++
+					key := fmt.Sprintf("%s: cycles that write nothing advance by one byte", w.FnKey(fn))
+					bad, nCycles, nKept := w.checkFlagInvariant(l, sl.X, idx, mark, flag, c, true)
+					if bad != "" {
+						r.Bad(key, w.FnPos(fn), bad)
+					} else {
+						r.OK(key, w.FnPos(fn), fmt.Sprintf("%d feasible cycles, %d keep the pending range: each moves the index by exactly one", nCycles, nKept))
+					}
+				}
+			}
+		}
+	}
+	r.Expect("scanners with a pending range and a backslash flag", n, 1)
 }
